@@ -175,7 +175,7 @@ def replay (j : Json) : R Verdict := do
   let mut retFinal : Json := Json.null
   let mut rn := 0
   let mut prevInflight := 0
-  let mut accCount : List (Nat × Nat) := []     -- accepted results so far per individual in flight / in the population
+  let mut accCount : List (Nat × Nat × Int) := [] -- per individual: accepted results so far, the mean of them (as computed by the harness)
   let mut targetRound : Option Nat := none      -- round in which a completed sample first reached the target
   for rd in rounds do
     match rd.getObjVal? "obs" with
@@ -221,8 +221,8 @@ def replay (j : Json) : R Verdict := do
         | .complete sd (.acc _ m) =>
           match items.find? (fun (_, isd, _) => isd == sd) with
           | some (iid, _, _) =>
-            let cnt := (accCount.find? (·.1 == iid)).map (·.2) |>.getD 0
-            accCount := (iid, cnt + 1) :: accCount.filter (·.1 != iid)
+            let cnt := (accCount.find? (·.1 == iid)).map (·.2.1) |>.getD 0
+            accCount := (iid, cnt + 1, m) :: accCount.filter (·.1 != iid)
             if cnt + 1 == ss then
               match cfg.target with
               | some t => if F64.le (.fin m) t && targetRound.isNone then targetRound := some rn
@@ -267,6 +267,14 @@ def replay (j : Json) : R Verdict := do
       if allStarts.length != n || a + rj != n then
         pf := ("C03", s!"budget {n}, nothing else ended the run, but {allStarts.length} evaluations were started and the report counts {a} completed + {rj} rejected") :: pf
   | _, _ => pure ()
+  -- C02 (sample size > 1): the reported objective is the mean of exactly sample-size returns of ONE individual
+  match retFinal.getObjVal? "ok" with
+  | .ok okj =>
+    if ss > 1 then
+      let best := (fieldD okj "best").getInt?.toOption.getD 0
+      if !(accCount.any (fun (_, cnt, m) => cnt == ss && m == best)) then
+        pf := ("C02", s!"sample size {ss}: the reported objective {best} is not the mean of exactly {ss} accepted results of one individual") :: pf
+  | .error _ => pure ()
   -- C14 / C02 / C04 on a success report
   match retFinal.getObjVal? "ok" with
   | .ok okj =>
@@ -289,6 +297,12 @@ def replay (j : Json) : R Verdict := do
           pf := ("C04", "an accepted evaluation reached the target but the reported best is above it") :: pf
       | none => pure ()
   | .error _ => pure ()
+  -- C04: a run ended by a termination request still yields the best result seen so far rather than an error (a
+  -- failure that only happens while draining does not replace it); decided on the raw observations at sample size 1
+  if termReq && firstFail.isNone && ss == 1 && !accItems.isEmpty then
+    match retFinal.getObjVal? "err" with
+    | .ok e => pf := ("C04", s!"a terminated run with {accItems.length} accepted evaluation(s) returned the error {e.compress} of an evaluation that failed while draining instead of the best result") :: pf
+    | .error _ => pure ()
   if retFinal.compress == "\"noIndividuals\"" && !accItems.isEmpty then
     if ss == 1 then
       pf := ("C02", "run ended with NoIndividuals although an evaluation was accepted") :: ("C04", "run ended with NoIndividuals although an evaluation was accepted") :: pf
